@@ -44,7 +44,7 @@ M2_ALPH = 'a *_`[]()\\'
 
 
 @lemma('M2.inline', 'C09', quick=[{'k': 1}, {'k': 2}] + by('c1', list('*`['), by('c2', list(M2_ALPH), [{'k': 3}])),
-       thorough=[{'k': 1}, {'k': 2}] + by('c1', list(M2_ALPH), [{'k': 3}, {'k': 4, 'timeout': 5000}]), timeout=900, per_path=90,
+       thorough=[{'k': 1}, {'k': 2}] + by('c1', list(M2_ALPH), by('c2', list(M2_ALPH), [{'k': 3}])) + by('c1', list('*_`['), by('c2', list(M2_ALPH), [{'k': 4, 'timeout': 5000}])), timeout=900, per_path=90,
        covers=['markdown_renderer.py:MarkdownRenderer.span_to_lines', 'markdown_renderer.py:MarkdownRenderer.make_fragments',
                'markdown_renderer.py:MarkdownRenderer.fragments_to_lines', 'markdown_renderer.py:MarkdownRenderer.embed_span',
                'markdown_renderer.py:MarkdownRenderer.render_link_or_image', 'span_token.py:tokenize_inner'],
